@@ -105,13 +105,7 @@ pub const MODES: [EncodationType; 6] = [
 
 /// Mode set from the crate's own bit values (Ascii=1, C40=2, Text=4, X12=8, Edifact=16, Base256=32).
 pub fn modes_from_bits(bits: u8) -> FlagSet<EncodationType> {
-    let mut f: FlagSet<EncodationType> = FlagSet::default();
-    for m in MODES {
-        if bits & (m as u8) != 0 {
-            f |= m;
-        }
-    }
-    f
+    FlagSet::<EncodationType>::new_truncated(bits)
 }
 
 pub fn mode_char(m: EncodationType) -> char {
